@@ -57,7 +57,9 @@ PROPS = {
         'lean_targets': ['Shisui.Props.C06'],
         'min_obligations': 7,
         'runs': [{'name': 'store', 'harness': ['store'], 'driver': ['store', 'C06']},
-                 {'name': 'inrange', 'harness': ['inrange'], 'driver': ['inrange']}],
+                 {'name': 'inrange', 'harness': ['inrange'], 'driver': ['inrange']},
+                 # the third site the statement names (gossip targets): the relation of C20 on the real GossipAndReturnPeers
+                 {'name': 'gossipsite', 'harness': ['gossip'], 'driver': ['C20']}],
         'rule': 'store histories as C04/C05 with adversarial ids (tiny distance in one byte order, huge in the other); in-range triples: '
                 'random, window of +-2 around the distance, around every power of two, radii below 600 and the maximum; non-trivial = '
                 'non-empty store / every triple; distinct = distinct lines'
